@@ -751,6 +751,18 @@ func (endp *Endpoint) wrapErr(msgId string, mangleUTF8 bool, command string, err
 		res.Message = smtpErr.Message
 	}
 
+	if res.Code/100 != 4 && res.Code/100 != 5 {
+		// This is a failure: the transaction is aborted. A code of another
+		// class (e.g. the unexpected "252" a downstream server answered
+		// DATA with) would tell the client that the message is accepted.
+		res.Code = 554
+		res.EnhancedCode = smtp.EnhancedCode{5, 0, 0}
+		if exterrors.IsTemporary(err) {
+			res.Code = 451
+			res.EnhancedCode = smtp.EnhancedCode{4, 0, 0}
+		}
+	}
+
 	if msgId != "" {
 		res.Message += " (msg ID = " + msgId + ")"
 	}
